@@ -247,39 +247,8 @@ func checkC04(sc *Scenario, t *Truth) []Violation {
 				fmt.Sprintf("Run() returned at seq %d while the command of %s (pid %d) was still alive", t.RunRet, in.Replica, in.Pid), t.RunRet})
 		}
 	}
-	// triggers
-	cands := map[int]string{}
-	for rep, insts := range t.ByRep {
-		p := sc.specOfReplica(rep)
-		if p == nil {
-			continue
-		}
-		for _, in := range insts {
-			if in.ExitSeq < 0 || in.BySig != 0 {
-				continue
-			}
-			if p.Restart == "exit_on_failure" && in.Code != 0 {
-				cands[in.Code] = rep + " (exit_on_failure)"
-			}
-			if p.ExitOnEnd {
-				cands[in.Code] = rep + " (exit_on_end)"
-			}
-		}
-	}
-	for rep, trs := range t.Trans {
-		p := sc.specOfReplica(rep)
-		if p == nil {
-			continue
-		}
-		for _, tr := range trs {
-			if tr.State == "Skipped" && p.ExitOnSkipped {
-				cands[1] = rep + " (exit_on_skipped)"
-			}
-			if tr.State == "Error" && (p.ExitOnEnd || p.Restart == "exit_on_failure") {
-				cands[1] = rep + " (failed to start)"
-			}
-		}
-	}
+	// triggers: ends of exit_on_* carriers that were not caused by the project shutdown itself
+	cands := triggerCandidates(sc, t)
 	if t.RunRet >= 0 {
 		if len(cands) == 0 {
 			if t.RunCode != 0 {
@@ -335,7 +304,7 @@ func checkC04(sc *Scenario, t *Truth) []Violation {
 			}
 			live := t.LiveAt(seq)
 			if len(live) == 0 {
-				vs = append(vs, Violation{"C04", "run-waits-forever", strings.Join(stuckSnap, ","),
+				vs = append(vs, Violation{"C04", "run-waits-forever", statusSet(stuckSnap),
 					fmt.Sprintf("every command had exited and nothing could start any more, yet Run() had not returned after %v of quiet; non-terminal: %v", time.Duration(sc.RunForMs)*time.Millisecond, stuckSnap), seq})
 			}
 			_ = stuck
@@ -497,4 +466,87 @@ func countDependents(sc *Scenario, dep string, live map[string]*Inst) int {
 		}
 	}
 	return n
+}
+
+// triggerCandidates returns the exit codes that Run() may report: the exit code of every
+// end of an exit_on_failure (non-zero) / exit_on_end carrier that was not brought about by
+// the project shutdown itself, and 1 for a skipped exit_on_skipped carrier or a carrier
+// that failed to start. An end is attributed to the shutdown when the fatal signal was
+// sent after the first trigger (or after an explicit shutdown request).
+func triggerCandidates(sc *Scenario, t *Truth) map[int]string {
+	type ev struct {
+		seq     int
+		code    int
+		who     string
+		kill    int  // seq of the fatal signal, -1 for a script exit
+		certain bool // this end certainly triggers a shutdown (no restart can follow)
+	}
+	var evs []ev
+	for rep, insts := range t.ByRep {
+		p := sc.specOfReplica(rep)
+		if p == nil {
+			continue
+		}
+		for i, in := range insts {
+			if in.ExitSeq < 0 {
+				continue
+			}
+			kill := -1
+			if in.BySig != 0 {
+				kill = in.ExitSeq
+				for _, k := range in.Kills {
+					if k.Seq < kill {
+						kill = k.Seq
+					}
+				}
+			}
+			if p.Restart == "exit_on_failure" && in.Code != 0 {
+				evs = append(evs, ev{in.ExitSeq, in.Code, rep + " (exit_on_failure)", kill, true})
+			} else if p.ExitOnEnd {
+				evs = append(evs, ev{in.ExitSeq, in.Code, rep + " (exit_on_end)", kill, !restartOwed(p, in.Code, i)})
+			}
+		}
+	}
+	for rep, trs := range t.Trans {
+		p := sc.specOfReplica(rep)
+		if p == nil {
+			continue
+		}
+		for _, tr := range trs {
+			if tr.State == "Skipped" && p.ExitOnSkipped {
+				evs = append(evs, ev{tr.Seq, 1, rep + " (exit_on_skipped)", -1, true})
+			}
+			if tr.State == "Error" && (p.ExitOnEnd || p.Restart == "exit_on_failure") {
+				evs = append(evs, ev{tr.Seq, 1, rep + " (failed to start)", -1, true})
+			}
+		}
+	}
+	sort.Slice(evs, func(i, j int) bool { return evs[i].seq < evs[j].seq })
+	first := 1 << 60
+	for _, c := range t.Calls {
+		if c.Op == "shutdown" && c.CallSeq < first {
+			first = c.CallSeq
+		}
+	}
+	cands := map[int]string{}
+	for _, e := range evs {
+		if e.kill >= 0 && e.kill > first {
+			continue // terminated by the shutdown
+		}
+		cands[e.code] = e.who
+		if e.certain && e.seq < first {
+			first = e.seq
+		}
+	}
+	return cands
+}
+
+func statusSet(xs []string) string {
+	m := map[string]bool{}
+	for _, x := range xs {
+		if i := strings.IndexByte(x, '='); i >= 0 {
+			m[x[i+1:]] = true
+		}
+	}
+	return strings.Join(sortedNames(m), "+")
 }
